@@ -107,6 +107,8 @@ func checkC01(c *Ctx) {
 	// rollback-by-overwrite is made durable by its own commit (also with the fast index off)
 	checkOverwriteSequence(c)
 	checkEmptyValueLegal(c)
+	checkCloneCopiesDecisionFields(c)
+	checkIndexReaders(c)
 	c.rule("PASS-root-record", "existence and identity of a version come from its stored root record, not from the node cache", 2)
 	checkRootRecord(c, "PASS-root-record")
 	checkMergeOrder(c)
